@@ -166,9 +166,11 @@ struct IListRunner {
 		if(o.name == "push_front") { c.push_front(node(o.x)); return 0; }
 		if(o.name == "push_back") { c.push_back(node(o.x)); return 0; }
 		if(o.name == "insert_before") { c.insert(o.y ? c.iterator_to(node(o.y)) : c.end(), node(o.x)); return 0; }
-		if(o.name == "erase") { INode *r = c.erase(c.iterator_to(node(o.x))); return r ? r->id : -1; }
-		if(o.name == "pop_front") { INode *r = c.pop_front(); return r ? r->id : -1; }
-		if(o.name == "pop_back") { INode *r = c.pop_back(); return r ? r->id : -1; }
+		// a removed element has left the list: its hook says so and holds no links (it may be linked again)
+		auto gone = [](INode *r) -> long long { if(!r) return -1; return (r->hook.in_list || r->hook.next || r->hook.previous) ? -9 : r->id; };
+		if(o.name == "erase") { INode *r = c.erase(c.iterator_to(node(o.x))); return gone(r); }
+		if(o.name == "pop_front") { INode *r = c.pop_front(); return gone(r); }
+		if(o.name == "pop_back") { INode *r = c.pop_back(); return gone(r); }
 		if(o.name == "clear") { c.clear(); return 0; }
 		if(o.name == "splice_end") { c.splice(c.end(), sl.at(3 - o.d)); return 0; }
 		return -999;
